@@ -52,7 +52,8 @@ COMPONENTS = {
 }
 PROBES = ["dir_fastavro_writes", "dir_peer_writes", "fixture", "is_avro", "empty_block", "multi_chunk_header",
           "codec_key_absent", "deflate_trailing_bytes", "codec_null", "codec_deflate", "codec_bzip2", "codec_xz",
-          "tiling_ge2_blocks", "is_avro_path", "is_avro_true", "is_avro_false"]
+          "tiling_ge2_blocks", "is_avro_path", "is_avro_true", "is_avro_false", "foreign_block_ge64_records",
+          "foreign_big_header", "profile_many_records", "profile_huge_record"]
 
 _FIXTURES = None
 
@@ -157,16 +158,21 @@ def peer_writes(F, ch, ctx):
     recs = [common.strip_hints(r, sc.node) for r in sc.records]
     blocks = []
     i = 0
+    big_blocks = len(recs) > 50
     while i < len(recs):
         if ch.chance(15):
             blocks.append([])
-        n = 1 + ch.draw(min(5, len(recs) - i))
+            if ch.chance(30):
+                blocks.extend([[], []])          # several consecutive empty blocks
+        n = 1 + ch.draw(min(2000 if big_blocks else 5, len(recs) - i))
         blocks.append(recs[i:i + n])
         i += n
     if ch.chance(20):
         blocks.append([])
     if any(not b for b in blocks):
         ctx.probe("empty_block")
+    if any(len(b) >= 64 for b in blocks):
+        ctx.probe("foreign_block_ge64_records")
     codec_key = ch.chance(60)
     if not codec_key and sc.codec == "null":
         ctx.probe("codec_key_absent")
@@ -175,6 +181,14 @@ def peer_writes(F, ch, ctx):
     meta = dict(sc.metadata or {})
     if ch.chance(30):
         meta["x.extra"] = "extra-välue"
+    if ch.chance(6):
+        # header map with many entries / a value whose length needs a 3-byte varint
+        if ch.draw(2):
+            for i in range(70):
+                meta["k%03d" % i] = "v" * (i % 4)
+        else:
+            meta["x.long"] = "L" * ch.pick([8192, 70000])
+        ctx.probe("foreign_big_header")
     data, truth_w = refavro.write_container(sc.node, sc.schema, blocks, codec=sc.codec, sync=ch.bytes(16),
                                             meta=meta, ch=ch, codec_key=codec_key, layout=lay)
     if truth_w["header_chunks"] > 1:
